@@ -235,9 +235,30 @@ func c11Gen(r *Rng, n int) []string {
 			cfg.Keys = keyAlpha
 		}
 		m := r.RootMap(&cfg)
+		deepPath := ""
+		if r.P(6) {
+			// a chain of 7..12 nested maps (path lengths around every small constant)
+			n := 7 + r.Intn(6)
+			var cur interface{} = map[string]interface{}{"leaf": "v", "other": "w"}
+			keys := []string{"leaf"}
+			for i := 0; i < n-1; i++ {
+				k := r.Pick(plainKeys)
+				cur = map[string]interface{}{k: cur, "sib": "s"}
+				keys = append([]string{k}, keys...)
+			}
+			m = cur.(map[string]interface{})
+			deepPath = strings.Join(keys, ".")
+		}
 		ms := enc(m)
 		for j := 0; j < 3; j++ {
 			path := nestedMapPath(r, m)
+			if deepPath != "" {
+				segs := strings.Split(deepPath, ".")
+				path = strings.Join(segs[:len(segs)-r.Intn(3)], ".")
+				if r.P(30) {
+					path += "." + r.Pick([]string{"fresh", "sib"})
+				}
+			}
 			if r.P(6) {
 				path = r.DerivedPath(m, false, 4) // may go through lists / wildcards
 			}
